@@ -47,6 +47,7 @@ def net_water():
     pp.create_sink(net, j[2], 0.4)
     pp.create_sink(net, j[4], 0.3, scaling=0.5)
     pp.create_source(net, j[3], 0.05)
+    pp.create_sink(net, j[1], 0.2, scaling=1.3, in_service=False)
     return net
 
 
@@ -85,6 +86,8 @@ PF = {
     "bidir": {"mode": "bidirectional", "use_numba": False, "iter": 40},
     "fail": {"mode": "hydraulics", "use_numba": False, "iter": 1, "tol_p": 1e-14, "tol_m": 1e-14},
     "heat_stored": "special",
+    "hyd_save": "special",       # hydraulics, the solution vector is kept for a later heat_saved
+    "heat_saved": "special",     # thermal-only run from the solution vector kept by the last hyd_save of the history
 }
 EDITS = {
     "edit_sink": ("sink", "mdot_kg_per_s", lambda v: v * 3.0), "edit_d": ("pipe", "inner_diameter_mm", lambda v: v * 0.8),
@@ -95,7 +98,7 @@ OPS = list(PF.keys()) + ["user_opts", "user_iter", "user_reset"] + list(EDITS.ke
 
 
 def applicable(netname, op):
-    if netname == "gas" and op in ("seq", "bidir", "heat_stored", "edit_hc"):
+    if netname == "gas" and op in ("seq", "bidir", "heat_stored", "heat_saved", "edit_hc"):
         return False
     if netname == "loop" and op in ("edit_sink",):
         return False
@@ -198,7 +201,14 @@ def results_equal(a, b, exact=True, rtol=1e-9):
 def do_pf(net, op):
     """returns ('ok'|'raised:X')"""
     try:
-        if op == "heat_stored":
+        if op == "hyd_save":
+            pp.pipeflow(net, mode="hydraulics", use_numba=False)
+            net["_verif_saved"] = np.concatenate((net._pit["node"][:, PINIT], net._pit["branch"][:, MDOTINIT]))
+        elif op == "heat_saved":
+            if "_verif_saved" not in net:
+                return "skipped"
+            pp.pipeflow(net, mode="heat", sol_vec=net["_verif_saved"], use_numba=False)
+        elif op == "heat_stored":
             pp.pipeflow(net, mode="hydraulics", use_numba=False)
             u = np.concatenate((net._pit["node"][:, PINIT], net._pit["branch"][:, MDOTINIT]))
             pp.pipeflow(net, mode="heat", sol_vec=u, use_numba=False)
@@ -220,7 +230,12 @@ def apply_ops(net, ops, check=None):
             statuses.append(st)
             if check:
                 check(i, op, before, st)
-        elif op == "user_opts":
+        elif op == "failrun":
+            do_pf(net, "fail")     # a failing calculation in between (not checked itself)
+            continue
+        elif op is not None and "_verif_saved" in net:
+            del net["_verif_saved"]      # inputs or options change: the kept solution no longer belongs to this net
+        if op == "user_opts":
             pp.set_user_pf_options(net, friction_model="swamee-jain", tol_p=2e-6)
         elif op == "user_iter":
             pp.set_user_pf_options(net, iter=35)
@@ -238,7 +253,7 @@ def apply_ops(net, ops, check=None):
     return statuses
 
 
-PRE = [None, "user_opts", "user_iter", "user_reset", "restore"] + list(EDITS.keys())
+PRE = [None, "user_opts", "user_iter", "user_reset", "restore", "failrun"] + list(EDITS.keys())
 
 
 def cases(tier):
@@ -303,6 +318,10 @@ def run_case(case):
     fresh = NETS[netname]()
     desc_ops = [o for o in case["ops"][:-1] if o not in PF]
     apply_ops(fresh, desc_ops)
+    if last == "heat_saved":
+        if st1 == "skipped":
+            return {"status": "ok", "violations": vs, "states": states, "transitions": transitions[0], "traces": 1, "nontrivial": False, "sig": None}
+        do_pf(fresh, "hyd_save")
     st3 = do_pf(fresh, last)
     transitions[0] += 1
     if st3 != st1:
@@ -313,7 +332,7 @@ def run_case(case):
             vs.append(viol("history_changes_results", "%s: differs from the fresh net in %s" % (where, d), op=last,
                            first=case["ops"][0], **tag))
     # (iv) heat from the stored hydraulic solution equals sequential
-    if last == "heat_stored" and st1 == "ok":
+    if last in ("heat_stored", "heat_saved") and st1 == "ok":
         seqnet = NETS[netname]()
         apply_ops(seqnet, desc_ops)
         if do_pf(seqnet, "seq") == "ok":
